@@ -93,13 +93,29 @@ Definition agree_out (F : list nat) (v d : list bid) : bool :=
 Definition mapi {A B} (f : nat -> A -> B) (l : list A) : list B :=
   map (fun ix => f (fst ix) (snd ix)) (combine (seq 0 (length l)) l).
 
-(* raid_data(|F|, F, levels of `used`, ...) on the buffer d; jn = junk counter *)
-Definition reconstruct (F : list nat) (used : list penc) (d : list bid) (jn : N) : list bid * N :=
+(* raid_data(|F|, F, levels of `used`, ...) on the buffer d; jn = junk counter.
+   xor1 = exactly one level is used and it is the first one (plain XOR parity: every coefficient is 1).  There the id
+   abstraction can still name the result when the buffer disagrees with the encoded vector v at exactly ONE position i
+   outside F, holding zero in the buffer, while v is zero at the single failed position j: the result is
+   v_j + (v_i + d_i) = v_i -- a block that was MOVED from disk i to disk j at the same stripe position (and whose old
+   place now reads as zero: DELETED) comes back although the parity is stale.  Every other disagreement gives junk. *)
+Definition reconstruct (xor1 : bool) (F : list nat) (used : list penc) (d : list bid) (jn : N) : list bid * N :=
   let junk := (mapi (fun i x => if memn i F then (JBASE + jn + N.of_nat i)%N else x) d, (jn + N.of_nat (length d))%N) in
   match used with
   | PEnc v :: rest =>
       if forallb (fun p => match p with PEnc v' => veq v v' | _ => false end) rest && agree_out F v d
       then (mapi (fun i x => if memn i F then vnth v i else x) d, jn)
+      else if xor1 then
+        match F, rest with
+        | [j], [] =>
+            match filter (fun i => negb (memn i F) && negb (N.eqb (vnth v i) (vnth d i))) (seq 0 (Nat.max (length v) (length d))) with
+            | [i] => if N.eqb (vnth v j) 0 && N.eqb (vnth d i) 0
+                     then (mapi (fun k x => if Nat.eqb k j then vnth v i else x) d, jn)
+                     else junk
+            | _ => junk
+            end
+        | _, _ => junk
+        end
       else junk
   | _ => junk
   end.
@@ -167,7 +183,8 @@ Section Fix.
         then try_combos pos withhash F fm rec rest buf jn err tags
         else
           let used := if withhash then ip else removelast ip in
-          let '(buf', jn') := reconstruct F (map (fun l => nth l rec PNone) used) buf jn in
+          let xor1 := match used with [O] => true | _ => false end in
+          let '(buf', jn') := reconstruct xor1 F (map (fun l => nth l rec PNone) used) buf jn in
           let ok := if withhash then hash_matching fm buf' else par_matches buf' (nth (last ip O) rec PNone) in
           if ok then (true, buf', jn', err, tags)
           else try_combos pos withhash F fm rec rest buf' jn' (S err)
